@@ -18,7 +18,12 @@ ASSUMPTIONS = ["Python bytes is the reference string; bytes 1..255 (NUL-free)", 
 
 
 def prepare(tier):
-    return {"ex_vm": build.executor("asan", "ex_vm")}
+    return {"ex_vm": build.executor("asan", "ex_vm"), "fz_str": build.executor("fuzz", "fz_str", extra_ldflags=["-fsanitize=fuzzer"])}
+
+
+# coverage-guided companion (libFuzzer, ASan): bytes -> op list over one heap String, oracle = libc buffer model +
+# independent MurmurHash64A (harness/fz_str.c)
+FUZZ = [{"target": "fz_str", "runs": {"quick": 60000, "thorough": 20000000}, "max_len": 256}]
 
 
 _operand = st.one_of(
